@@ -232,7 +232,7 @@ func compareAll(r *ev.Run, v *increment.IncrementValidator, m state, count bool)
 }
 
 func partA(r *ev.Run) mc.Stats {
-	depth := r.QT(6, 8)
+	depth := r.QT(6, 10)
 	var init []state
 	for _, c := range []int{1, 2, 3} {
 		init = append(init, state{Cap: c})
